@@ -41,7 +41,9 @@ ASSUMPTIONS = [
 ]
 NSH = 16
 O = isa.op
-SCOPES = ('signature_extensions', 'check_template')
+# two scopes the module creates itself and one an application makes up (it
+# does not exist until the first add_plugin names it)
+SCOPES = ('signature_extensions', 'check_template', 'app_scope')
 FIELDS = {'sigfield1': b'hello', 'sigfield2': b'w'}
 CIDS = {'c1': b'\x01' * 4, 'c2': b'\x02' * 4}
 ALIASES = {'QQDUP': 'OP_DUP', 'ZZSHA': 'OP_SHA256'}
@@ -154,7 +156,7 @@ PROBE_CID = b'\x7f' * 4
 
 def plugin_actions():
     acts = []
-    for s in range(2):
+    for s in range(3):
         for p in PLUGINS:
             acts.append(('padd', s, p))
             acts.append(('prem', s, p))
@@ -187,7 +189,7 @@ COMPILE_SRCS = [
 
 class Model:
     def __init__(self):
-        self.plugins = {0: [], 1: []}
+        self.plugins = {0: [], 1: [], 2: []}
         self.contracts = {}
         self.ifaces = set()
         self.aliases = {}
@@ -196,7 +198,8 @@ class Model:
         return (tuple(sorted(self.plugins[0])), tuple(sorted(self.plugins[1])),
                 tuple(sorted(self.contracts.items())),
                 tuple(sorted(self.ifaces)),
-                tuple(sorted(self.aliases.items())))
+                tuple(sorted(self.aliases.items())),
+                tuple(sorted(self.plugins[2])))
 
     def apply(self, a):
         k = a[0]
@@ -243,7 +246,7 @@ def do_action(a, ctx=None):
         if a[1] == 0:
             tapescript.reset_signature_extensions()
         else:
-            functions.reset_plugins(SCOPES[1])
+            functions.reset_plugins(SCOPES[a[1]])
     elif k == 'cadd':
         functions.add_contract(CIDS[a[1]], CONTRACTS[a[2]])
     elif k == 'crem':
@@ -316,11 +319,14 @@ def reset_registries():
     if Orig.aliases is None:
         Orig.aliases = dict(functions.opcode_aliases)
         Orig.ifaces = dict(functions._contract_interfaces)
+        Orig.scopes = tuple(functions._plugins)
     # emptied IN PLACE: the list objects the module created stay the ones in
     # use (re-binding fresh lists here would hide what the module's own
     # containers do, e.g. two scopes sharing one list)
     for s in list(functions._plugins):
         del functions._plugins[s][:]
+        if s not in Orig.scopes:
+            del functions._plugins[s]   # a scope only an add_plugin creates
     functions._contracts.clear()
     functions._contract_interfaces.clear()
     functions._contract_interfaces.update(Orig.ifaces)
@@ -352,7 +358,17 @@ def probe_state():
     run_prog(isa.push(b'hello') + O('CHECK_TEMPLATE') + b'\x01',
              additional_flags={10: False})
     fired1 = list(Fired.log)
-    dup = len(fired0) != len(set(fired0)) or len(fired1) != len(set(fired1))
+    # the application's own scope, used the way an added instruction uses it:
+    # run_plugins on the tape of a run
+    Fired.log = []
+    try:
+        tape, stack, cache = functions.run_script(O('TRUE'), dict(FIELDS))
+        functions.run_plugins(SCOPES[2], tape, stack, cache)
+    except BaseException:
+        Fired.log.append('APP-SCOPE-RAISED')
+    fired2 = list(Fired.log)
+    dup = len(fired0) != len(set(fired0)) or len(fired1) != len(set(fired1)) \
+        or len(fired2) != len(set(fired2))
     # the same through the authorization entry point, the instruction sitting
     # in the SECOND and in the THIRD script of the list
     neutral = O('TRUE') + O('POP0')
@@ -427,6 +443,7 @@ def probe_state():
     except BaseException:
         al.append(('VERIFY', 'GONE'))
     out.append(tuple(al))
+    out.append(tuple(sorted(set(fired2))))
     return tuple(out), dup
 
 
@@ -481,6 +498,8 @@ def minimal_adds(key):
         acts.append(('iadd', i))
     for a, opn in key[4]:
         acts.append(('alias', a) if opn == ALIASES[a] else ('alias_lc', a))
+    for p in key[5]:
+        acts.append(('padd', 2, p))
     return acts
 
 
@@ -502,10 +521,12 @@ def baseline_for(key, ctx):
     for a in minimal_adds(key):
         do_action(a)
     b = battery()
-    for k in functions._plugins:
+    for k in list(functions._plugins):
         del functions._plugins[k][:]
+        if k not in saved[0]:
+            del functions._plugins[k]
     for k, v in saved[0].items():
-        functions._plugins[k].extend(v)
+        functions._plugins.setdefault(k, []).extend(v)
     functions._contracts.clear()
     functions._contracts.update(saved[1])
     functions._contract_interfaces.clear()
@@ -719,8 +740,9 @@ def run_history(hist, ctx=None, collect=None):
                              'plugin ran more than once for one instruction'))
             break
         if got != want:
-            fam = ['plugins', 'plugins', 'contracts', 'interfaces', 'aliases']
-            which = [fam[i] for i in range(5) if got[i] != want[i]]
+            fam = ['plugins', 'plugins', 'contracts', 'interfaces', 'aliases',
+                   'plugins']
+            which = [fam[i] for i in range(6) if got[i] != want[i]]
             key = 'registry-not-a-set:' + which[0]
             if a[0] == 'preset' and which[0] == 'plugins':
                 key = 'reset-plugins-leaves-entries'
